@@ -355,9 +355,17 @@ IgnoresNonCritical == [][IgnoresNonCriticalStep]_vars
 KeysAgree ==
   (Idle /\ ret.ok /\ good) => (ret.data.c2s = C2S(sess) /\ ret.data.s2c = S2C(sess))
 
-\* On success the pool is exactly the cookies issued, in order, minus those handed out.
-PoolIsIssued   == (Idle /\ good) => data.pool = gpool
-PoolReturned   == (conn = "done" /\ ret.ok /\ ret.exch) => ret.data.pool = Issued(sess, sv.nck)
+\* On success the pool is exactly the cookies issued, minus those handed out.
+\* "Exactly the cookies" is a statement about which cookies, each how often,
+\* not about their order (the code keeps them first-in first-out, and so does
+\* this specification; a property-preserving change that hands out the newest
+\* cookie first was alarmed on while the clause compared sequences).
+Count(s, x) == Cardinality({i \in DOMAIN s : s[i] = x})
+SameCookies(p, q) ==
+  /\ Len(p) = Len(q)
+  /\ \A i \in DOMAIN p : Count(p, p[i]) = Count(q, p[i])
+PoolIsIssued   == (Idle /\ good) => SameCookies(data.pool, gpool)
+PoolReturned   == (conn = "done" /\ ret.ok /\ ret.exch) => SameCookies(ret.data.pool, Issued(sess, sv.nck))
 
 \* NTP requests go to the server and port named in the exchange, by default to
 \* the key-exchange host and the standard NTP port.
